@@ -870,3 +870,4 @@ UNITS = [
     ("C19.build_gas_phase.mass_balance_and_pressure_sum_terms_of_each_gas_component", lambda twin=False: unit_build_gas("pressure", twin)),
     ("C19.build_fixed_volume_gas.mass_balance_and_pressure_sum_terms_of_each_gas_component", lambda twin=False: unit_build_gas("volume", twin)),
 ]
+from props.c19_ext2 import UNITS as _U2; UNITS = UNITS + _U2
